@@ -25,16 +25,21 @@ One execution:
                 X in A.get_peers() and A in X.get_peers();
             (3) otherwise A walks once more to everything walkable and then (2)'s conclusion must hold;
             (4) same-box pairs never address each other through their box's public IP (hairpin log empty);
-            (5) nothing raises (loop exception handler, exceptions logged by Community.on_packet, API calls).
+            (5) after the FIFO schedule the stock RandomWalk (time-out 3 s, step every 0.5 s) runs on A and X for 10 s of
+                virtual time: at every tick A and X must still be in each other's get_peers();
+            (6) nothing raises (loop exception handler, exceptions logged by Community.on_packet, API calls).
 """
 from __future__ import annotations
 
+import random
 import sys
 import traceback
 
 import ipv8.community as community_mod
+import ipv8.peerdiscovery.discovery as discovery_mod
 from ipv8.community import Community, CommunitySettings
 from ipv8.peer import Peer
+from ipv8.peerdiscovery.discovery import RandomWalk
 
 from .. import core, fixtures
 from ..ref.c13_nat import NAT_KINDS, NatWorld
@@ -62,12 +67,16 @@ class Chooser:
     def __call__(self, seq):  # noqa: ANN001, ANN204
         seq = list(seq)
         w = self.world
-        if w is None or not seq or not all(isinstance(p, Peer) for p in seq):
+        if w is None or not seq:
             return seq[0]
+        if not all(isinstance(p, Peer) for p in seq):       # RandomWalk.take_step choosing a walkable address
+            if w.force_addr is not None and w.force_addr in seq:
+                return seq[seq.index(w.force_addr)]
+            return sorted(seq)[random.randrange(len(seq))]    # seeded per world: deterministic
         names = sorted(w.name_of(p) for p in seq)
         by_name = {w.name_of(p): p for p in seq}
         caller = w.current_node_name()
-        pick = names[0]
+        pick = names[random.randrange(len(names))] if w.phase == "post" else names[0]
         forced = False
         if w.force_pick is not None and caller == "B":
             idx = w.force_pick
@@ -85,6 +94,16 @@ class Chooser:
 
 CHOOSER = Chooser()
 community_mod.choice = CHOOSER
+discovery_mod.choice = CHOOSER
+
+
+def _randint(a: int, b: int) -> int:
+    """RandomWalk's walk-or-ask-for-an-introduction coin: forced to "walk" while the harness drives a step."""
+    w = CHOOSER.world
+    return b if (w is not None and w.force_walk) else random.randint(a, b)
+
+
+discovery_mod.randint = _randint
 
 
 class RecLogger:
@@ -118,6 +137,9 @@ class IntroWorld(NatWorld):
         self.introduced: str | None = None
         self.choice_log: list = []
         self.kind_of: dict[str, str] = {}
+        self.strat: dict[str, RandomWalk] = {}
+        self.force_addr: tuple | None = None
+        self.force_walk = False
         keys = fixtures.rotate(seed, 3 + 4)
         ports = cfg["ports"]
         placement, ta, tc = cfg["placement"], cfg["ta"], cfg["tc"]
@@ -178,9 +200,25 @@ class IntroWorld(NatWorld):
     def peers_of(self, name: str) -> set:
         return {self.name_of(p) for p in self.ov[name].get_peers()}
 
-    def walk_all(self, name: str) -> list:
+    def strategy(self, name: str) -> RandomWalk:
+        """The stock walker, parameterised as ipv8_service does by default."""
+        if name not in self.strat:
+            self.strat[name] = RandomWalk(self.ov[name], timeout=3.0)
+        return self.strat[name]
+
+    def walk_all(self, name: str, stock_walker: bool = False) -> list:
         ov = self.ov[name]
         addrs = sorted(tuple(a) for a in ov.get_walkable_addresses())
+        if stock_walker:
+            # through the real RandomWalk.take_step (window 5), so that its time-out bookkeeping knows about the walks
+            st = self.strategy(name)
+            for a in addrs:
+                self.force_addr, self.force_walk = a, True
+                try:
+                    self.call(name, st.take_step)
+                finally:
+                    self.force_addr, self.force_walk = None, False
+            return [a for a in addrs if a in st.intro_timeouts]
         for a in addrs:
             # walk_to() decides the message style from what the introduction said about the address
             self.call(name, ov.walk_to, next(x for x in ov.get_walkable_addresses() if tuple(x) == a))
@@ -197,7 +235,10 @@ def style_of(cfg: dict, name: str) -> bool:
     return s == "new" or (s == "A-new" and name == "A") or (s == "X-new" and name != "A")
 
 
-def run_one(cfg: dict, schedule: tuple, seed: int, depth: int) -> dict:
+POST_TICKS = 20        # x 0.5 s: the stock walker runs 10 s of virtual time after the round (its time-out is 3 s)
+
+
+def run_one(cfg: dict, schedule: tuple, seed: int, depth: int, post: bool = False) -> dict:
     """One execution.  Returns violations [(key, what)], avail (in-flight count per main-round step), obs, trace."""
     cfg = {"style": "old", "k": 1, "pick": 0, "ports": "shift", "warm": "warm", "via": "x-walked", "rewarm": "1", **cfg}
     w = IntroWorld(cfg, seed)
@@ -298,7 +339,7 @@ def run_one(cfg: dict, schedule: tuple, seed: int, depth: int) -> dict:
             w.deliver(idx)
             steps += 1
             if not walked and ov_a.get_walkable_addresses():
-                walked = w.walk_all("A")
+                walked = w.walk_all("A", stock_walker=True)
             if steps > STEP_CAP:
                 viol.append(("harness:step-cap", f"{cfg} {schedule}: network did not go quiet"))
                 break
@@ -320,7 +361,7 @@ def run_one(cfg: dict, schedule: tuple, seed: int, depth: int) -> dict:
         trail = (f"{cfg} introduced={x}({tx}) schedule={list(schedule)}: A walked to {walked}; "
                  f"main-round deliveries: {fmt_deliveries(main_deliv)}; drops: {fmt_drops(w, n_warm)}; "
                  f"A.wan={tuple(ov_a.my_estimated_wan)} {x}.wan={tuple(w.ov[x].my_estimated_wan)}")
-        again: list = []
+        rewalked: list = []
         second = first
         if punctured_first:
             if first != (True, True):
@@ -328,12 +369,12 @@ def run_one(cfg: dict, schedule: tuple, seed: int, depth: int) -> dict:
                              f"{x}'s puncture was out before A's contact attempt arrived, yet A has {x}: {first[0]}, "
                              f"{x} has A: {first[1]}; {trail}"))
         if first != (True, True):
-            again = w.walk_all("A")
+            rewalked = w.walk_all("A")
             w.flush()
             second = connected()
             if second != (True, True) and not (punctured_first and first != (True, True)):
                 viol.append((f"unreachable|{placement}|{how}|further-walk",
-                             f"after one further walk of A to {again} A has {x}: {second[0]}, {x} has A: {second[1]}; "
+                             f"after one further walk of A to {rewalked} A has {x}: {second[0]}, {x} has A: {second[1]}; "
                              f"{trail}; later drops: {fmt_drops(w, n_warm)[-6:]}"))
         if placement == "same-box":
             hp = [r for r in w.drop_log if r["phase"] == "main" and r["reason"] == "hairpin" and r["from"] in ("A", x)]
@@ -341,6 +382,22 @@ def run_one(cfg: dict, schedule: tuple, seed: int, depth: int) -> dict:
                 viol.append((f"same-box:wan-address-used|{how}",
                              f"peers on one LAN addressed each other through their box's public IP: "
                              f"{[(r['from'], r['kind'], r['dst']) for r in hp]}; {trail}"))
+        # ---- afterwards: the stock walkers of A and X run on; whoever connected must stay connected -------------------
+        lost = None
+        if post and second == (True, True):
+            w.phase = "post"
+            for tick in range(POST_TICKS):
+                for name in ("A", x):
+                    w.call(name, w.strategy(name).take_step)
+                w.run_for(0.5)
+                now = connected()
+                if now != (True, True) and lost is None:
+                    lost = (tick, now)
+            if lost is not None:
+                viol.append((f"evicted-after-connecting|{placement}",
+                             f"A and {x} were verified peers of each other after the round, but {0.5 * (lost[0] + 1):.1f} s "
+                             f"later (stock RandomWalk, take_step every 0.5 s, time-out 3 s, FIFO delivery) A has {x}: "
+                             f"{lost[1][0]}, {x} has A: {lost[1][1]}; at the end of the 10 s: {connected()}; {trail}"))
         for name, etype, text in w.logged:
             viol.append((f"exception|handler|{etype}", f"{name} logged an exception while handling a packet: {text}; {trail}"))
         for name, fn, etype, text in w.api_errors:
@@ -355,7 +412,7 @@ def run_one(cfg: dict, schedule: tuple, seed: int, depth: int) -> dict:
         obs = (cfg["placement"], cfg["ta"], tx, cfg["style"], punctured_first, first, second, reasons,
                all(learnt.values()), cfg["warm"], cfg["ports"], cfg["via"], cfg["rewarm"])
         return {"viol": viol, "avail": avail, "obs": obs, "trace": trace, "introduced": x,
-                "offered": len(w.offered or ())}
+                "offered": len(w.offered or ()), "post": post and second == (True, True), "kept": lost is None}
     finally:
         w.close()
 
@@ -422,6 +479,7 @@ def base_configs(thorough: bool) -> list[dict]:
 
 _SEED = 0
 _DEPTH = 4
+_POST_LEN = 0       # schedules up to this length are followed by the stock-walker phase
 
 
 def explore_configs(chunk: list) -> list:
@@ -433,18 +491,23 @@ def explore_configs(chunk: list) -> list:
         classes: set = set()
         sample = None
         introduced = set()
+        posts = kept = 0
         stack = [()]
         while stack:
             sched = stack.pop()
-            r = run_one(cfg, sched, _SEED, _DEPTH)
+            post = len(sched) <= _POST_LEN
+            r = run_one(cfg, sched, _SEED, _DEPTH, post)
             execs += 1
+            posts += bool(r.get("post"))
+            kept += bool(r.get("post") and r.get("kept"))
             if r.get("skipped"):
                 skipped += 1
                 continue
             for key, what in r["viol"]:
                 old = viols.get(key)
                 if old is None or (len(sched), sched) < (len(old[1]["schedule"]), tuple(old[1]["schedule"])):
-                    viols[key] = (what, {"cfg": cfg, "schedule": list(sched), "seed": _SEED, "depth": _DEPTH})
+                    viols[key] = (what, {"cfg": cfg, "schedule": list(sched), "seed": _SEED, "depth": _DEPTH,
+                                          "post": post})
             if r.get("introduced"):
                 introduced.add(r["introduced"])
                 sigs.add(core.digest((r["obs"][:4], cfg["ports"], cfg["warm"], cfg["via"], cfg["rewarm"],
@@ -458,7 +521,7 @@ def explore_configs(chunk: list) -> list:
                 for i in range(1, av[j]):
                     stack.append(sched + (0,) * (j - len(sched)) + (i,))
         res.append({"cfg": cfg, "execs": execs, "skipped": skipped, "viols": viols, "sigs": sigs, "classes": classes,
-                    "sample": sample, "introduced": sorted(introduced)})
+                    "sample": sample, "introduced": sorted(introduced), "posts": posts, "kept": kept})
     return res
 
 
@@ -468,13 +531,14 @@ def _cfg_rank(cfg: dict) -> tuple:
 
 
 def run(ctx: core.Ctx) -> core.Report:
-    global _SEED, _DEPTH
+    global _SEED, _DEPTH, _POST_LEN
     _SEED = ctx.seed % 12
+    _POST_LEN = 1 if ctx.thorough else 0
     _DEPTH = STEP_CAP if ctx.thorough else 4      # thorough: every delivery order of the whole round
     cfgs = base_configs(ctx.thorough)
     # replay determinism: the same (configuration, schedule) must give the same observation log in a fresh world
     for cfg, sched in ((cfgs[0], ()), (cfgs[-1], (1, 1)), (cfgs[len(cfgs) // 2], (0, 1, 1))):
-        r1, r2 = (run_one(cfg, sched, _SEED, 4) for _ in range(2))
+        r1, r2 = (run_one(cfg, sched, _SEED, 4, True) for _ in range(2))
         if (r1["obs"], r1["trace"], r1["avail"], r1["viol"]) != (r2["obs"], r2["trace"], r2["avail"], r2["viol"]):
             core.eprint(f"C13: replay of {cfg} {sched} is not deterministic:\n{r1}\n{r2}")
             sys.exit(2)
@@ -516,6 +580,11 @@ def run(ctx: core.Ctx) -> core.Report:
         "schedule_depth": _DEPTH if _DEPTH < STEP_CAP else "unbounded (every delivery order of the whole round)",
         "max_schedules_per_configuration": max(r["execs"] for r in res),
         "skipped_choice_not_offered": skipped,
+        "stock_walker_phases": sum(r["posts"] for r in res),
+        "stock_walker_phases_still_connected_throughout": sum(r["kept"] for r in res),
+        "stock_walker_phase": f"after the FIFO schedule{' and every schedule deviating in its first delivery' if ctx.thorough else ''}"
+                              f" of each configuration: RandomWalk(timeout=3) on A and X, take_step every 0.5 s for "
+                              f"{POST_TICKS * 0.5:.0f} s of virtual time, FIFO delivery; checked after every tick",
         "distinct_outcome_classes": len(classes),
         "outcome_classes_connected_without_further_walk": success_first,
         "outcome_classes_needing_further_walk": len(classes) - success_first,
@@ -533,6 +602,8 @@ def run(ctx: core.Ctx) -> core.Report:
         "short-circuit, no hairpinning, no symmetric NATs, sessions learnt at send time and checked at arrival time",
         "idle NAT sessions (everything but the session with the introducer) expire between warm-up and the round",
         "the introducer is public; IPv4 only; one overlay per node; no packet loss or duplication (order only)",
+        "A's walks of the round go through RandomWalk.take_step with its coin and address choice forced (so its time-out "
+        "bookkeeping is the library's); the 'one further walk' is a direct walk_to",
         "new-style messages are requested by the harness (create_introduction_request(new_style=True)); the library "
         "itself only switches style after having seen a new-style message",
     ])
@@ -541,5 +612,5 @@ def run(ctx: core.Ctx) -> core.Report:
 def replay(ctx: core.Ctx, data) -> list:  # noqa: ANN001
     if not data:
         return []
-    r = run_one(data["cfg"], tuple(data["schedule"]), data["seed"], data.get("depth", 4))
+    r = run_one(data["cfg"], tuple(data["schedule"]), data["seed"], data.get("depth", 4), data.get("post", True))
     return [core.Violation(k, what) for k, what in r["viol"]]
